@@ -170,6 +170,11 @@ func c06Property(t *rapid.T) {
 	if nDefects == 0 && rapid.Bool().Draw(t, "inside-window") {
 		d.stime = "inside"
 	}
+	// a message at or above the expected number may be flagged as a retransmission (PossDupFlag=Y
+	// with an earlier OrigSendingTime): that is no defect and exempts it from nothing
+	if d.seq != "low" && rapid.IntRange(0, 3).Draw(t, "flagged-possdup") == 0 {
+		d.possdup, d.orig = "Y", "earlier"
+	}
 	d.subs = rapid.Bool().Draw(t, "sub-ids")
 	msgType := rapid.SampledFrom([]string{"D", "D", "0", "1", "3"}).Draw(t, "type")
 	if state == "logon" {
